@@ -9,7 +9,7 @@ from __future__ import annotations
 import ast
 import itertools
 
-from vp import harness, instrument, proggen, ty, universe
+from vp import harness, instrument, prelude, proggen, ty, universe
 
 ID = "C01"
 LEVEL = "exploration"
@@ -27,7 +27,7 @@ ASSUMPTIONS = [
     "programs do not mutate containers, do not recurse, loops are bounded",
 ]
 FLOORS = {
-    "quick": {"distinct_nontrivial": 4000, "functions_called": 800, "rec_evaluations": 100000, "decided_memberships": 60000},
+    "quick": {"distinct_nontrivial": 10000, "functions_called": 800, "rec_evaluations": 200000, "decided_memberships": 200000, "witnesses_minimised": 1},
     "thorough": {"distinct_nontrivial": 40000, "functions_called": 8000, "rec_evaluations": 1000000},
 }
 EXCUSING_CODES = {
@@ -64,15 +64,21 @@ def func_ranges(tree: ast.Module) -> list:
     return [(n.name, n.lineno, n.end_lineno) for n in tree.body if isinstance(n, ast.FunctionDef)]
 
 
-def check_module(ctx, source: str, funcs, only_func=None, only_args=None) -> None:
+C01_OVERRIDES = {"unused_variable": False, "unused_assignment": False, "value_always_true": False}
+
+
+def check_module(ctx, source: str, funcs, only_func=None, only_args=None, kwargs=None) -> None:
+    """kwargs=None: a fresh Checker for this module, so that what is inferred does not depend on which modules the
+    worker checked before (history effects are C10's business and would make witnesses unreplayable)."""
     try:
         ins = instrument.Instrumented(source)
     except Exception as e:  # noqa: BLE001
         ctx.count("modules_not_importable")
         return
     try:
-        res = harness.run(source, tree=ins.tree, module=ins.module, annotate=True,
-                          overrides={"unused_variable": False, "unused_assignment": False, "value_always_true": False})
+        if kwargs is None:
+            kwargs = harness.constructor_kwargs("tests", C01_OVERRIDES, fresh=True)
+        res = harness.run(source, tree=ins.tree, module=ins.module, annotate=True, kwargs=kwargs)
         if res.exception is not None:
             ctx.count("checker_raised")  # C12's business
             return
@@ -134,6 +140,7 @@ def check_module(ctx, source: str, funcs, only_func=None, only_args=None) -> Non
                 state["decided"] = state["informative"] = state["steps"] = 0
                 state["bad"] = []
                 ctx.count("evaluations")
+                prelude._flip[0] = False  # helpers with state start every call from the same state (replayable)
                 try:
                     f(*[a.obj for a in args])
                     ctx.count("runs_completed")
@@ -185,7 +192,7 @@ def function_source(source: str, name: str) -> str:
 def shard(ctx) -> None:
     from vp.core import Ctx
 
-    n = ctx.pick(150, 1500)
+    n = ctx.pick(60, 1000)
     prods = set()
     raw = Ctx(ID, ctx.tier, ctx.seed, ctx.shard, ctx.nshards)  # collects un-minimised violations
     raw.rng = ctx.rng
@@ -286,14 +293,49 @@ def mechanism_key(minkey: str, minsrc: str, fname: str, params=None, args=None, 
         return "truthiness|falsy-member-of-type-assumed-always-true"
     if args is not None and _cross_type_equal(minsrc, fname, args):
         return "equality-narrowing|argument-equals-literal-of-other-type"
-    if node == "Name" and node_src and _loop_carried(minsrc, fname, node_src):
+    if node_src and _stale_composite_in_loop(minsrc, fname, node_src):
+        return "loop|value-of-x[const]-kept-from-first-pass-although-x-is-reassigned-in-the-loop"
+    if node_src and any(_loop_carried(minsrc, fname, n.id) for n in ast.walk(ast.parse(node_src, mode="eval")) if isinstance(n, ast.Name)):
         return "loop|value-carried-around-the-loop-is-analysed-with-two-passes-only"
     return f"{node}|{mismatch}|needs:{feats}"
 
 
+def _stale_composite_in_loop(minsrc: str, fname: str, node_src: str) -> bool:
+    """The violating expression is (or contains) `x[<constant index or slice>]` / `x.attr` where x is re-assigned
+    inside an enclosing loop: pyanalyze tracks such 'composite variables' and keeps the value computed on the first
+    pass over the loop body."""
+    expr = ast.parse(node_src, mode="eval").body
+    bases = set()
+    for n in ast.walk(expr):
+        if isinstance(n, ast.Subscript) and isinstance(n.value, ast.Name):
+            sl = n.slice
+            const = isinstance(sl, (ast.Constant, ast.Slice)) or (isinstance(sl, ast.UnaryOp) and isinstance(sl.operand, ast.Constant))
+            if const:
+                bases.add(n.value.id)
+        elif isinstance(n, ast.Attribute) and isinstance(n.value, ast.Name):
+            bases.add(n.value.id)
+    if not bases:
+        return False
+    tree = ast.parse(minsrc)
+    fn = next(n for n in tree.body if isinstance(n, ast.FunctionDef) and n.name == fname)
+    for loop in ast.walk(fn):
+        if isinstance(loop, (ast.While, ast.For)):
+            uses = any(ast.unparse(n) == ast.unparse(expr) for n in ast.walk(loop) if isinstance(n, type(expr)))
+            assigned = {n.id for sub in ast.walk(loop) for n in ast.walk(sub) if isinstance(n, ast.Name) and isinstance(n.ctx, ast.Store)}
+            if uses and bases & assigned:
+                return True
+    return False
+
+
 def _loop_carried(minsrc: str, fname: str, var: str) -> bool:
-    """`var` is assigned inside a loop from an expression that (transitively, within that loop) depends on a
-    variable assigned in the same loop — its value after k iterations is not covered by two analysis passes."""
+    """Does the value of `var` depend on more trips around a loop than pyanalyze's two analysis passes provide?
+
+    True when, inside one loop of the minimal program, var is assigned (or depends on a variable that is) and either
+    (a) the dependency is cyclic (`x = f(x)`: the k-th value needs k passes), or
+    (b) a second loop-assigned variable is involved — in the data dependencies of var or in a branch test of the
+        loop — so that a value has to travel around the back edge and then through another assignment/branch.
+    A single assignment merely read earlier in the next iteration (`for ..: use(v); v = 2`) does NOT qualify:
+    that is exactly what the second pass exists for."""
     tree = ast.parse(minsrc)
     fn = next(n for n in tree.body if isinstance(n, ast.FunctionDef) and n.name == fname)
     for loop in ast.walk(fn):
@@ -309,17 +351,36 @@ def _loop_carried(minsrc: str, fname: str, var: str) -> bool:
                     rn |= tn
                 for t in tn:
                     deps.setdefault(t, set()).update(rn)
-        if var not in deps:
+        if not deps:
             continue
-        seen, todo = set(), [var]
+        # closure of loop-assigned variables var depends on (var itself included when assigned in the loop)
+        reach, todo = set(), [var]
+        cyclic = False
         while todo:
             cur = todo.pop()
             for d in deps.get(cur, ()):
-                if d == var:
-                    return True
-                if d not in seen and d in deps:
-                    seen.add(d)
+                if d == var and var in deps:
+                    cyclic = True
+                if d in deps and d not in reach:
+                    reach.add(d)
                     todo.append(d)
+        if var in deps:
+            reach.add(var)
+        if not reach:
+            continue
+        if cyclic:
+            return True
+        test_vars = set()
+        for sub in ast.walk(loop):
+            if isinstance(sub, (ast.If, ast.While, ast.IfExp)):
+                test_vars |= {n.id for n in ast.walk(sub.test) if isinstance(n, ast.Name)}
+            elif isinstance(sub, ast.match_case) and sub.guard is not None:
+                test_vars |= {n.id for n in ast.walk(sub.guard) if isinstance(n, ast.Name)}
+            elif isinstance(sub, ast.Match):
+                test_vars |= {n.id for n in ast.walk(sub.subject) if isinstance(n, ast.Name)}
+        involved = reach | (test_vars & set(deps))
+        if len(involved) >= 2:
+            return True
     return False
 
 
@@ -330,8 +391,10 @@ def report(ctx, w, rawkey: str, occurrences: int = 1):
     minsrc, minkey, hit = minimise(w["source"], w["func"], params, w["args"], rawkey)
     ctx.count("witnesses_minimised")
     if hit is None:
-        ctx.count("witnesses_not_reproducible")
-        ctx.violation("unreproducible|" + rawkey, "violation did not reproduce in isolation", w)
+        # observed once during the run but not in 6 isolated attempts: nondeterministic inference (C10's subject);
+        # counted and noted, not reported, because a violation must come with a witness that replays
+        ctx.count("violations_not_reproducible", occurrences)
+        ctx.note(f"not reproducible in isolation: {rawkey}")
         return
     extra = [hit["witness"]["value"]] if hit.get("witness", {}).get("value") else []
     key = mechanism_key(minkey, minsrc, w["func"], params, list(w["args"]) + extra, hit.get("witness", {}).get("node"))
@@ -349,7 +412,10 @@ def replay(witness):
 
     ctx = Ctx(ID, "quick", 0, 0, 1)
     params = [(p, _find_ty(t)) for p, t in witness["params"]]
-    check_module(ctx, witness["source"], [(witness["func"], params)], only_func=witness["func"], only_args=witness["args"])
+    for _ in range(6):  # inference is not fully deterministic (see minimise)
+        check_module(ctx, witness["source"], [(witness["func"], params)], only_func=witness["func"], only_args=witness["args"])
+        if ctx.violations:
+            break
     for rawkey, lst in sorted(ctx.violations.items()):
         out = Ctx(ID, "quick", 0, 0, 1)
         report(out, witness, rawkey)
@@ -444,12 +510,12 @@ def _signature_of(key: str) -> str:
     return parts[0] + "|" + parts[-1]
 
 
-def still_violates(source: str, fname: str, params, args, sig: str):
+def still_violates(source: str, fname: str, params, args, sig: str, kwargs=None):
     from vp.core import Ctx
 
     sub = Ctx(ID, "quick", 0, 0, 1)
     try:
-        check_module(sub, source, [(fname, params)], only_func=fname, only_args=args)
+        check_module(sub, source, [(fname, params)], only_func=fname, only_args=args, kwargs=kwargs)
     except Exception:  # noqa: BLE001
         return None
     for key, lst in sub.violations.items():
@@ -461,7 +527,14 @@ def still_violates(source: str, fname: str, params, args, sig: str):
 def minimise(source: str, fname: str, params, args, key: str, budget: int = 200):
     """Greedy statement deletion / hoisting while a violation with the same (node type, type mismatch) persists."""
     sig = _signature_of(key)
-    best = still_violates(source, fname, params, args, sig)
+    best = None
+    for _ in range(6):
+        # fresh Checker, as in the run that found it. pyanalyze's inference is not fully deterministic (sets keyed by
+        # object identity, see C10), so a violation seen once may need several attempts to show again.
+        best = still_violates(source, fname, params, args, sig)
+        if best is not None:
+            break
+    kwargs = harness.constructor_kwargs("tests", C01_OVERRIDES, fresh=True)  # one Checker for all trials of this witness
     if best is None:
         return source, key, None
     checks = 0
@@ -485,11 +558,16 @@ def minimise(source: str, fname: str, params, args, key: str, budget: int = 200)
             if cand == source:
                 continue
             checks += 1
-            r = still_violates(cand, fname, params, args, sig)
+            r = still_violates(cand, fname, params, args, sig, kwargs)
             if r is not None:
                 source, best = cand, r
                 changed = True
                 break
+    for _ in range(3):
+        final = still_violates(source, fname, params, args, sig)
+        if final is not None:
+            best = final
+            break
     return source, best[0], best[1]
 
 
@@ -508,7 +586,7 @@ def features(source: str, fname: str) -> str:
         elif isinstance(node, ast.Try):
             feats.add("try" + ("+else" if node.orelse else "") + ("+finally" if node.finalbody else ""))
         elif isinstance(node, ast.Match):
-            pats = sorted({type(c.pattern).__name__ + ("+guard" if c.guard is not None else "") for c in node.cases})
+            pats = sorted({type(c.pattern).__name__ + (f"+guard[{instrument.test_kind(c.guard)}]" if c.guard is not None else "") for c in node.cases})
             feats.add("match[" + ",".join(pats) + "]")
         elif isinstance(node, ast.IfExp):
             feats.add(f"ifexp[{instrument.test_kind(node.test)}]")
